@@ -1,5 +1,6 @@
 """C10 validate — structural obligations."""
 import ast
+import re
 import itertools
 
 from sa.callgraph import bind_args
@@ -236,8 +237,10 @@ def run(ctx):
     ctx.check("C10.R4", "_validate: a missing value in strict mode is False, whatever the field's type", ok, vf.where(), "_validate: strict missing-value arm", "in strict mode a record lacking a field without default must be rejected even when the field accepts null")
     vr = V.funcs("record")[0]
     passed = [c for c in ast.walk(vr.node) if isinstance(c, ast.Call) and isinstance(c.func, ast.Name) and c.func.id == "_validate"]
-    ok = len(passed) == 1 and any(k.arg == "datum" and norm(k.value) == "datum.get(f['name'], f.get('default', NoValue))" for k in passed[0].keywords)
-    ctx.check("C10.R4", "_validate_record: an absent field is validated as its default, else as NoValue", ok, vr.where(), f"_validate_record: value passed = {[norm(k.value) for c in passed for k in c.keywords if k.arg == 'datum']}", "absent fields must validate through their default, and be distinguishable (NoValue) when there is none")
+    got_vals = [bind_args(vf, c).get(vf.pos_params[0]) for c in passed]
+    dn_ = vr.pos_params[0]
+    ok = len(passed) == 1 and got_vals[0] is not None and bool(re.fullmatch(re.escape(dn_) + r"\.get\((\w+)\['name'\], \1\.get\('default', NoValue\)\)", norm(got_vals[0])))
+    ctx.check("C10.R4", "_validate_record: an absent field is validated as its default, else as NoValue", ok, vr.where(), f"_validate_record: value passed = {[norm(v) for v in got_vals if v is not None]}", "absent fields must validate through their default, and be distinguishable (NoValue) when there is none")
     Dp, Sp = vf.pos_params[0], vf.pos_params[1]
     nov = [s for s in summaries(cfg_of(vf)) if s.kind == "return" and f"{Dp} is NoValue" in s.facts and (s.text.startswith("VALIDATORS") or s.text.startswith("_validate("))]
     def _first_arg(t):
